@@ -18,7 +18,7 @@ if not checks:
 if len(checks) > 8:
     # a change in a file most properties are anchored in: the owner and the checks whose recorders sit closest to
     # fit() / sample() / statistics()
-    own = re.match(r"B-(C\d+)-", bid)
+    own = re.match(r"B\d*-(C\d+)-", bid)
     keep = {"C05", "C06", "C07", "C12", "C13", "C14", "C17", "C20"} | ({own.group(1)} if own else set())
     checks = [c for c in checks if c in keep]
 scratch = tempfile.mkdtemp(prefix="verif-benign-")
